@@ -19,8 +19,8 @@ Requests:
 * `name V T`              → `ok <hex TypeName>` | `unsupported`
 * `pair V T | T`          → `<hex name1> <hex name2> <identical 0/1> <fragment 0/1>` (names `unsupported` when not covered;
                             fragment = the decidable hypotheses of `typeName_injective_partial` hold for the pair)
-* `impl t:(nameH typ ifn)… | v:(…)` or `| none`   → `<implScan> <newItabOk> <spec>`
-* `find v:(…) | nameH typ` → `<ifn> <matched>`
+* `impl t:(nameH typ ifn)… | v:(…)` (or `v@kind:`) or `| none`   → `<implScan> <newItabOk> <spec> <itab function words | ->`
+* `find v:(…) | nameH typ` → `<ifn> <found>` (via the itab of the one-method interface)
 * `implspec MSET | T`     → `<implements 0/1>`   (MSET is an `I` term holding the method set)
 * `closure X tid tclosure tf0 tnamed | vid vclosure vf0 vnamed` or `| none` → `<matchesClosure>` (X = 1: variant with fixes/C07-3.diff)
 * `sha H`                 → base64url(sha256) (self test)
@@ -233,6 +233,7 @@ def dropMark (l : List String) : List String :=
   | "t:" :: r => r
   | "v:" :: r => r
   | "iface:" :: r => r
+  | m :: r => if m.startsWith "v@" then r else m :: r   -- `v@chan:` …: the descriptor kind does not matter to the scans
   | l => l
 
 def parseDesc : List String → Option Face.Desc
@@ -255,9 +256,13 @@ def handle (line : String) : String :=
     let (a, b) := splitBar toks
     match parseEnts (dropMark a) with
     | some t =>
-      if b = ["none"] then bstr (Face.implScan t none) ++ " " ++ bstr (Face.newItabOk t none) ++ " " ++ bstr t.isEmpty
+      if b = ["none"] then bstr (Face.implScan t none) ++ " " ++ bstr (Face.newItabOk t none) ++ " " ++ bstr t.isEmpty ++ " -"
       else match parseEnts (dropMark b) with
-        | some v => bstr (Face.implScan t (some v)) ++ " " ++ bstr (Face.newItabOk t (some v)) ++ " " ++ bstr (specDec t v)
+        | some v =>
+          let funs := match Face.newItabFuns t v with
+            | some (f :: fs) => if f != 0 then ",".intercalate ((f :: fs).map toString) else "-"
+            | _ => "-"
+          bstr (Face.implScan t (some v)) ++ " " ++ bstr (Face.newItabOk t (some v)) ++ " " ++ bstr (specDec t v) ++ " " ++ funs
         | none => "bad-op"
     | none => "bad-op"
   | "find" :: toks =>
@@ -266,8 +271,10 @@ def handle (line : String) : String :=
     | some v, [n, t] =>
       match unhex n, t.toNat? with
       | some n, some t =>
-        let r := Face.findMethod v { name := n.map (·.toNat), typ := t }
-        toString r.1 ++ " " ++ bstr r.2
+        -- as the native driver does: the itab of the one-method interface (valid iff found with a non-nil code pointer)
+        match Face.newItabFuns [{ name := n.map (·.toNat), typ := t }] v with
+        | some [f] => if f != 0 then toString f ++ " 1" else "0 0"
+        | _ => "0 0"
       | _, _ => "bad-op"
     | _, _ => "bad-op"
   | "implspec" :: toks =>
